@@ -445,3 +445,32 @@ pub proof fn lemma_depths_same(v1: Seq<BasicBlock>, v2: Seq<BasicBlock>, n0: int
         assert(bb_depth(v1[j]) as nat == a[j - n0]); assert(bb_depth(v2[j]) == bb_depth(v1[j]));
     }
 }
+
+// ---- IR lifting of statements: which statements `try_lift` accepts (the other arms panic: they are handled by the
+// caller, or — MultiSubstitution — must have been removed by desugaring)
+pub open spec fn liftable(s: ast::Statement) -> bool {
+    s is Return || s is Substitution || s is ConstraintEquality || s is LogCall || s is Assert || s is Declaration
+}
+// no tuple assignment anywhere (the guarantee of the desugaring pass, C18)
+pub open spec fn no_multisub(s: ast::Statement) -> bool
+    decreases s
+{
+    match s {
+        ast::Statement::MultiSubstitution { .. } => false,
+        ast::Statement::InitializationBlock { initializations, .. } => all_no_multisub(initializations@, initializations@.len() as int),
+        ast::Statement::Block { stmts, .. } => all_no_multisub(stmts@, stmts@.len() as int),
+        ast::Statement::While { stmt, .. } => no_multisub(*stmt),
+        ast::Statement::IfThenElse { if_case, else_case, .. } => no_multisub(*if_case) && (match else_case { Some(e) => no_multisub(*e), None => true }),
+        _ => true,
+    }
+}
+pub open spec fn all_no_multisub(s: Seq<ast::Statement>, n: int) -> bool
+    decreases s, n
+{
+    if n <= 0 || n > s.len() { true } else { all_no_multisub(s, n - 1) && no_multisub(s[n - 1]) }
+}
+pub proof fn lemma_all_no_multisub_elem(s: Seq<ast::Statement>, n: int, k: int)
+    requires 0 <= k < n <= s.len(), all_no_multisub(s, n)
+    ensures no_multisub(s[k])
+    decreases n
+{ if k < n - 1 { lemma_all_no_multisub_elem(s, n - 1, k); } }
